@@ -35,6 +35,12 @@ C['C10']=("Relational symbolic execution: a directive run scanned in place vs. t
 C['C19']=("Three fixed projects built with a symbolic banned pair {b1,b2} over all 31 kinds (solver enumerates all pairs): a banned kind occurring anywhere in the project text (also only inside an unused MACRO body, only inside an INCLUDEd file, and INCLUDE/MACRO/PASTE themselves) => not-allowed error located on a keyword of a banned kind; otherwise the build equals the build without the option.",
  "Bounds: 3 fixture projects x all pairs of kinds. "+COMMON_TRUST,
  "concolic symbolic execution of go/ssa + SMT (z3) over the banned-set parameters","§4 C19")
+C['C08']=("Two-run relational symbolic execution of the whole build: 5 skeleton projects vs. rewrites that the language defines as insignificant — LF/CRLF/CR, uniform indentation by symbolic blanks, symbolic trailing blanks, symbolic blank/comment lines and trailing comments at every legal site, quoting a bare parameter (symbolic content), // vs /* */ (symbolic content), implicit vs explicit ( ) context (symbolic choice), Description text layout (unit harness over symbolic lines). Equal catalog digest, or same error class with the error moved by the inserted length.",
+ "Bounds: 5 skeletons; 2/3 symbolic trivia bytes per site (every 3rd site in the quick tier); description lines over a 5-symbol alphabet. Catalog equality is checked on an in-package digest (entities, order, names, annotations, descriptions, schema text), not on the JSON bytes (encoding/json is outside the engine). "+COMMON_TRUST,
+ "concolic symbolic execution of go/ssa + SMT (z3), two-run relational harness over layout rewrites","§4 C08")
+C['C09']=("Two-run relational symbolic execution: skeleton project vs. the same project with a run of directive blocks (symbolic cut position, 1..3/8 blocks, depth 1 and 2) moved into an INCLUDEd file through the real scanner stack / processInclude / virtual file system; symbolic line end after INCLUDE and tail of the included file. Equal catalog digest, or the same error class located in the file that now holds the directive.",
+ "Bounds: 5 skeletons, cuts at directive boundaries, include depth <= 2. Catalog equality on the in-package digest (see C08). "+COMMON_TRUST,
+ "concolic symbolic execution of go/ssa + SMT (z3), two-run relational harness over include splits","§4 C09")
 checks=[]
 for pid in sorted(C):
     text,note,tech,design=C[pid]
